@@ -1,3 +1,4 @@
 //! Harness-side reference models and writers transcribed from ISO/IEC 18181
 //! (never from jxl-oxide). Used as oracles under Kani and for native replay.
 pub mod bitwriter;
+pub mod container;
